@@ -33,6 +33,8 @@
 #include <stdlib.h>
 #include <string.h>
 
+#include <sys/stat.h>
+#include <sys/types.h>
 #include <unistd.h>
 #include <limits.h>
 
@@ -263,26 +265,91 @@ char * etcLdSoPreload_readFile ()
 }
 
 
+/*
+ * Give up on replacing the ld.so.preload file: remove the temporary file and bail out.
+ *
+ * The original ld.so.preload file has not been touched at this point.
+ */
+__attribute__((noreturn)) static void etcLdSoPreload_writeFileAbort (const char * tmpFilePath, const char * filePath, const char * message)
+{
+    int savedErrno = errno;
+
+    unlink(tmpFilePath);
+
+    printDiagValue("ld.so.preload path", filePath);
+    printDiagValue("Temporary file path", tmpFilePath);
+    printDiagValue("Error message", strerror(savedErrno));
+    fatalError(message);
+}
+
+
+/*
+ * Replace the content of the ld.so.preload file
+ *
+ * The new content is first stored into a temporary file that sits next to the
+ * ld.so.preload file, and only once it is safely on disk it is rename()d over
+ * the real thing. This way the dynamic linker (and anyone else) always sees
+ * either the complete old content or the complete new content.
+ */
 void etcLdSoPreload_writeFile (char * newContent)
 {
     const char * filePath;
+    char * tmpFilePath;
+    int tmpFd;
+    FILE * tmpFileHandle;
+    struct stat statBuf;
 
     filePath = etcLdSoPreload_getFilePath();
 
-    FILE * fileHandle = fopen(filePath, "w+");
-    if (fileHandle == NULL) {
+    // Create the temporary file in the same directory (rename() must not cross filesystems)
+    tmpFilePath = malloc(strlen(filePath) + strlen(".XXXXXX") + 1);
+    if (tmpFilePath == NULL) {
+        fatalError("Unable to malloc() for the temporary file path.");
+    }
+    sprintf(tmpFilePath, "%s.XXXXXX", filePath);
+    tmpFd = mkstemp(tmpFilePath);
+    if (tmpFd == -1) {
         printDiagValue("ld.so.preload path", filePath);
         printDiagValue("Error message", strerror(errno));
         fatalError("Unable to open file for writing (missing sudo, maybe?).");
     }
 
-    if (fprintf(fileHandle, "%s", newContent) < 0) {
-        printDiagValue("ld.so.preload path", filePath);
-        printDiagValue("Error message", strerror(errno));
-        fatalError("Unable to write to file.");
+    // Keep the ownership and permissions of the file we are about to replace
+    if (stat(filePath, &statBuf) == 0) {
+        if (fchown(tmpFd, statBuf.st_uid, statBuf.st_gid) != 0) {
+            etcLdSoPreload_writeFileAbort(tmpFilePath, filePath, "Unable to set ownership of the temporary file.");
+        }
+        if (fchmod(tmpFd, statBuf.st_mode & 07777) != 0) {
+            etcLdSoPreload_writeFileAbort(tmpFilePath, filePath, "Unable to set permissions of the temporary file.");
+        }
+    } else {
+        if (fchmod(tmpFd, 0644) != 0) {
+            etcLdSoPreload_writeFileAbort(tmpFilePath, filePath, "Unable to set permissions of the temporary file.");
+        }
     }
 
-    fclose(fileHandle);
+    tmpFileHandle = fdopen(tmpFd, "w");
+    if (tmpFileHandle == NULL) {
+        etcLdSoPreload_writeFileAbort(tmpFilePath, filePath, "Unable to open the temporary file for writing.");
+    }
+
+    // Store the new content and make sure it has actually reached the disk
+    if ((fputs(newContent, tmpFileHandle) == EOF) || (fflush(tmpFileHandle) == EOF)) {
+        etcLdSoPreload_writeFileAbort(tmpFilePath, filePath, "Unable to write to file.");
+    }
+    if (fsync(tmpFd) != 0) {
+        etcLdSoPreload_writeFileAbort(tmpFilePath, filePath, "Unable to sync file to disk.");
+    }
+    if (fclose(tmpFileHandle) != 0) {
+        etcLdSoPreload_writeFileAbort(tmpFilePath, filePath, "Unable to close file.");
+    }
+
+    // Atomically put the new file in place
+    if (rename(tmpFilePath, filePath) != 0) {
+        etcLdSoPreload_writeFileAbort(tmpFilePath, filePath, "Unable to replace the ld.so.preload file.");
+    }
+
+    free(tmpFilePath);
 }
 
 
